@@ -73,15 +73,19 @@ func c05IpamOps() []ipamOp {
 type ipamState struct {
 	name  string
 	alloc [][2]string // ip, key
+	// reservedUnseen: an administrator's labelled object for this address exists in the store, the IPAM has not been notified
+	reservedUnseen string
 }
 
 func c05IpamStates() []ipamState {
 	return []ipamState{
-		{"empty", nil},
-		{"k1 holds .1 .2", [][2]string{{"10.10.1.1", "sts_ns_a_a-0"}, {"10.10.1.2", "sts_ns_a_a-0"}}},
-		{"k1 holds .1 .2, k2 holds .3", [][2]string{{"10.10.1.1", "sts_ns_a_a-0"}, {"10.10.1.2", "sts_ns_a_a-0"}, {"10.10.1.3", "sts_ns_b_b-0"}}},
-		{"k1 holds .1 .2, reserve dp_ns_d_ holds .3", [][2]string{{"10.10.1.1", "sts_ns_a_a-0"}, {"10.10.1.2", "sts_ns_a_a-0"}, {"10.10.1.3", "dp_ns_d_"}}},
-		{"reserve dp_ns_d_ holds .1 .3", [][2]string{{"10.10.1.1", "dp_ns_d_"}, {"10.10.1.3", "dp_ns_d_"}}},
+		{"empty", nil, ""},
+		{"k1 holds .1 .2", [][2]string{{"10.10.1.1", "sts_ns_a_a-0"}, {"10.10.1.2", "sts_ns_a_a-0"}}, ""},
+		{"k1 holds .1 .2, k2 holds .3", [][2]string{{"10.10.1.1", "sts_ns_a_a-0"}, {"10.10.1.2", "sts_ns_a_a-0"}, {"10.10.1.3", "sts_ns_b_b-0"}}, ""},
+		{"k1 holds .1 .2, reserve dp_ns_d_ holds .3", [][2]string{{"10.10.1.1", "sts_ns_a_a-0"}, {"10.10.1.2", "sts_ns_a_a-0"}, {"10.10.1.3", "dp_ns_d_"}}, ""},
+		{"reserve dp_ns_d_ holds .1 .3", [][2]string{{"10.10.1.1", "dp_ns_d_"}, {"10.10.1.3", "dp_ns_d_"}}, ""},
+		{"k1 holds .1 .2, .3 reserved by an administrator (not yet seen)", [][2]string{{"10.10.1.1", "sts_ns_a_a-0"}, {"10.10.1.2", "sts_ns_a_a-0"}}, "10.10.1.3"},
+		{".4 reserved by an administrator (not yet seen)", nil, "10.10.1.4"},
 	}
 }
 
@@ -100,6 +104,10 @@ func c05IpamJob() Job {
 				if err := w.Plugin.GetIpam().AllocateSpecificIP(a[1], net.ParseIP(a[0]), floatingip.Attr{Policy: 1, NodeName: "n1", Uid: "u1"}); err != nil {
 					panic(err)
 				}
+			}
+			if st.reservedUnseen != "" {
+				_ = w.Reserve(st.reservedUnseen)
+				w.Pending = nil
 			}
 			return w
 		}
@@ -129,6 +137,20 @@ func c05IpamJob() Job {
 						mode := "nofault"
 						if k > 0 {
 							mode = "fault:" + failed
+						}
+						if ip := st.reservedUnseen; ip != "" {
+							// the administrator's object is not the IPAM's to touch, and the tables must not claim the address
+							mem, _ := memByIP(w)
+							so, ok := storeByIP(w)[ip]
+							if !ok || !so.Reserved || so.Key != "admin-reserved" {
+								r.violate("C05", name, opKind(op.name), "administrator-reservation-changed", mode, fmt.Sprintf("%s: store has {%v present=%v}", desc, so, ok), []string{desc})
+								return
+							}
+							if mem[ip].Alloc {
+								r.violate("C05", name, opKind(op.name), "memory-claims-an-address-the-store-gives-to-someone-else", mode, fmt.Sprintf("%s: memory {%v}, store {%v}", desc, mem[ip], so), []string{desc})
+								return
+							}
+							delete(w.FIPs, ip) // the rest is compared without it
 						}
 						if f := agreeMemStore(w); f != nil {
 							r.violate("C05", name, opKind(op.name), f.Clause, mode, desc+": "+f.Detail, []string{desc})
